@@ -1,0 +1,132 @@
+//! TALK request hooks (property C20): build [`TalkRequest`]s around a channel whose receiving end
+//! (the handler's end in the running system) the caller holds, so that `respond` / drop can be
+//! observed without a running service.
+use crate::{
+    handler::HandlerIn,
+    rpc::{RequestId, ResponseBody},
+    service::Service,
+    ConfigBuilder, Enr, Event, IpMode, ListenConfig, NodeAddress, TalkRequest,
+};
+use enr::CombinedKey;
+use parking_lot::RwLock;
+use std::sync::Arc;
+use tokio::sync::mpsc;
+
+/// A message that arrived at the handler's end of the channel, in plain form.
+#[derive(Debug, Clone, PartialEq, Eq)]
+pub enum Observed {
+    /// `HandlerIn::Response(node_address, Response { id, body: Talk { response } })`
+    TalkResponse {
+        node_address: NodeAddress,
+        id: Vec<u8>,
+        payload: Vec<u8>,
+    },
+    /// Anything else (never produced by a `TalkRequest`).
+    Other(String),
+}
+
+/// The receiving end of the service-to-handler channel. Dropping it is what a shut-down node
+/// looks like to a `TalkRequest` that is still held by the application.
+pub struct HandlerEnd {
+    rx: mpsc::UnboundedReceiver<HandlerIn>,
+}
+
+impl HandlerEnd {
+    /// Everything that has arrived since the last call, in arrival order.
+    pub fn drain(&mut self) -> Vec<Observed> {
+        let mut out = vec![];
+        while let Ok(m) = self.rx.try_recv() {
+            out.push(match m {
+                HandlerIn::Response(node_address, response) => match response.body {
+                    ResponseBody::Talk { response: payload } => Observed::TalkResponse {
+                        node_address,
+                        id: response.id.0.clone(),
+                        payload,
+                    },
+                    other => Observed::Other(format!("response {}", other)),
+                },
+                HandlerIn::Request(..) => Observed::Other("request".into()),
+                _ => Observed::Other("other".into()),
+            });
+        }
+        out
+    }
+}
+
+/// The sending side as the service holds it (`handler_send`).
+#[derive(Clone)]
+pub struct TalkSource {
+    tx: mpsc::UnboundedSender<HandlerIn>,
+}
+
+/// A fresh service-to-handler channel.
+pub fn channel() -> (TalkSource, HandlerEnd) {
+    let (tx, rx) = mpsc::unbounded_channel();
+    (TalkSource { tx }, HandlerEnd { rx })
+}
+
+impl TalkSource {
+    /// A `TalkRequest` with the fields `handle_rpc_request` gives it (`sender` = a clone of the
+    /// channel's sending end).
+    pub fn talk_request(
+        &self,
+        id: &[u8],
+        node_address: NodeAddress,
+        protocol: Vec<u8>,
+        body: Vec<u8>,
+    ) -> TalkRequest {
+        TalkRequest::verif_new(
+            RequestId(id.to_vec()),
+            node_address,
+            protocol,
+            body,
+            self.tx.clone(),
+        )
+    }
+}
+
+/// A real `Service` (no handler task, `start` loop not running) whose `handle_rpc_request` is
+/// invoked directly: the `TalkRequest` is the one the service creates and emits as
+/// `Event::TalkRequest`.
+pub struct TalkService {
+    service: Service,
+    events: mpsc::Receiver<Event>,
+}
+
+impl TalkService {
+    pub fn new(local_enr: Enr, enr_key: CombinedKey) -> (TalkService, HandlerEnd) {
+        let listen_config = ListenConfig::Ipv4 {
+            ip: std::net::Ipv4Addr::LOCALHOST,
+            port: 9000,
+        };
+        let config = ConfigBuilder::new(listen_config).build();
+        let (service, rx, _to_service, events) = Service::verif_new(
+            Arc::new(RwLock::new(local_enr)),
+            Arc::new(RwLock::new(enr_key)),
+            config,
+            IpMode::Ip4,
+            64,
+        );
+        (TalkService { service, events }, HandlerEnd { rx })
+    }
+
+    /// Feeds a TALKREQ from `node_address` to the service; returns the request object delivered
+    /// to the application on the event stream.
+    pub fn deliver(
+        &mut self,
+        node_address: NodeAddress,
+        id: &[u8],
+        protocol: Vec<u8>,
+        body: Vec<u8>,
+    ) -> Option<TalkRequest> {
+        self.service
+            .verif_handle_talk_request(node_address, RequestId(id.to_vec()), protocol, body);
+        let mut found = None;
+        while let Ok(ev) = self.events.try_recv() {
+            if let Event::TalkRequest(req) = ev {
+                found = Some(req);
+            }
+        }
+        found
+    }
+}
